@@ -23,6 +23,9 @@ def run(rep):
     rep.guard(e6, rep, w)
     rep.guard(e7, rep, w)
     rep.guard(e8, rep, w)
+    rep.guard(e9, rep, w)
+    import c11
+    rep.guard(c11.i1, rep, w)    # `==` on strings is pointer identity: every string an operator produces has to come out of the intern table
     import c03
     rep.guard(c03.t3, rep, w)     # precedence levels: the table the binary-operator parser climbs
     rep.guard(c04.b3, rep, w)
@@ -311,3 +314,45 @@ def e8(rep, w, prop='C05'):
     r.check(len(eqs) == 1 and not other, 'Value::eq: one `==` on the two doubles, no other operation on a double',
             'PartialEq for Value compares numbers with %s: `nan == nan`, `x != x` as a NaN test, Vec / Tuple equality and HashMap key identity all go through this function'
             % (sorted(set(other)) or ['%d comparisons' % len(eqs)]), f.loc())
+
+
+def e9(rep, w, prop='C05'):
+    """`==` is a function of its two operands and of nothing else: no implementation of equality that PartialEq for Value can reach
+    writes anything (a visited flag set on one operand makes the answer depend on which operand that is and on what else is being
+    compared at the moment: `a == b` and `b == a` differ for cyclic structures). A cycle guard for equality has to be keyed on the
+    *pair* under comparison, which cannot be stored in one operand."""
+    r = rep.rule('E9', 'value equality writes no state: every PartialEq implementation reachable from Value::eq is free of stores and interior mutation', floor=4)
+    root = w.require_fn('yarel::<value::Value as std::cmp::PartialEq>::eq', prop)
+    seen = set()
+    todo = [root.path]
+    while todo:
+        p_ = todo.pop()
+        if p_ in seen or p_ not in w.fns:
+            continue
+        seen.add(p_)
+        f = w.fns[p_]
+        if f.crate is not w.yarel:
+            continue
+        for bi, t in f.calls(only_normal=False):
+            tg, _, _ = w.call_targets(f, t)
+            for x in tg:
+                g = w.fns.get(x)
+                # equality code only: PartialEq impls, derefs and the helpers they call in value.rs / object.rs
+                if g is not None and ('PartialEq' in x or x.endswith('::eq') or x.endswith('::ne') or 'Deref' in x or g.file.endswith(('value.rs',)) or (g.file.endswith('object.rs') and g.kind == 'Closure')):
+                    todo.append(x)
+    for p_ in sorted(seen):
+        f = w.fns[p_]
+        if f.crate is not w.yarel:
+            continue
+        writes = []
+        for bi in f.normal_blocks():
+            for s_ in f.blocks[bi]['s']:
+                d = s_.get('d') or {}
+                if '*' in d.get('p', []):
+                    writes.append('store through a reference')
+        for bi, t in f.calls():
+            n = strip_generics(callee_name(t) or '')
+            if n.startswith(('std::cell::Cell::set', 'std::cell::Cell::replace', 'std::cell::Cell::take', 'std::cell::RefCell::borrow_mut', 'std::cell::RefCell::replace', 'std::mem::replace', 'std::mem::swap')):
+                writes.append(n.rsplit('::', 2)[-2] + '::' + n.rsplit('::', 1)[-1])
+        r.check(not writes, '%s writes nothing' % p_.replace('yarel::', ''), '%s is part of the language\'s `==` and changes state (%s): the result of a comparison then depends on which operand is on the left '
+                'and on comparisons still in progress' % (p_, ', '.join(sorted(set(writes)))), f.loc())
